@@ -151,6 +151,19 @@ func genC04(tier string, rng *rand.Rand, shard, nshards int, emit emitter) {
 }
 
 func genC13(tier string, rng *rand.Rand, shard, nshards int, emit emitter) {
+	// field extraction through the builder: mixed byte orders, overlaps, repeats (judged like C05: every value is the
+	// direct decoding of the memory, so it cannot depend on what was extracted before)
+	nx := 3000
+	if tier == "thorough" {
+		nx = 60000
+	}
+	for i := 0; i < nx; i++ {
+		if !mine(i, shard, nshards) {
+			continue
+		}
+		fs := genFieldList(rng, false, false)
+		emit(fmt.Sprintf("extract %d %d %d %d %s", 4+rng.Intn(4), rng.Intn(2), -1, rng.Intn(100000), fieldsToken(fs)))
+	}
 	count := 6000
 	if tier == "thorough" {
 		count = 150000
